@@ -3,24 +3,24 @@
 import json
 LEVEL = {
  'C01': ('ISI scan = definition, by functional induction over the merge scan with a loop invariant; API level incl. empty trains; model tied to /repo by exact-structure correspondence (exhaustive grids + random) and the definition oracle', 'full'),
- 'C02': ('SPIKE scan = cursor-free definition at every breakpoint and every time (refinement theorem by induction over the scan), values in [0,1], 0 at shared spikes, global nearest-spike minimum; all outside the class of known finding F9, for which the full statement is proved FALSE of the code', 'partial: F9 class excluded'),
+ 'C02': ('SPIKE scan = cursor-free definition at every breakpoint and every time (refinement theorem by induction over the scan), 0 at shared spikes, global nearest-spike minimum, outside the class of known finding F9 (for which the full statement is proved FALSE of the code); values in [0,1] and the definition <= 1 for ALL valid trains', 'partial: F9 class excluded from the equality'),
  'C03': ('SPIKE-Sync scan = pairwise coincidence definition (refinement theorem), filter indicator = same definition, one-to-one, adjacent, strict ties, window <= half ISI; API level through reconcile theorems', 'full (model)'),
- 'C04': ('order / directionality scans = sign-convention spec (refinement), swap negation, leader/follower cancellation, antisymmetric matrix, synfire identity', 'full (kernel) + API identities'),
- 'C05': ('scalar = average of its profile: bivariate definitional; multivariate ISI / SPIKE / Sync over the whole recording and over any sub-interval (integral linearity over add proved for all three function classes); single-pass compiled routines = profile average', 'full (model)'),
- 'C06': ('all-pairs aggregate: divide-and-conquer = fold on an associative/commutative class, multivariate profile = mean of pair profiles at every time (ISI, SPIKE), scalar measures invariant under permutation of the list (ISI, SPIKE, Sync), matrices = bivariate entries', 'partial: permutation invariance of profile representations pending (wave D3)'),
- 'C07': ('range / symmetry / identity: ISI complete; SPIKE profile in [0,1] (outside F9), SPIKE symmetry for all inputs, SPIKE identity for all valid trains; Sync and order ranges, symmetry, directionality self = 0', 'partial: range of SPIKE distance (average) and multivariate values pending (wave D2)'),
- 'C08': ('affine equivariance (shift + positive scaling incl. MRTS, max_tau) of all 7 kernels for all inputs; mirror theorems for ISI, Sync, order; SPIKE mirror false on F9 and otherwise pending (wave D1)', 'partial'),
- 'C09': ('add = pointwise addition on the merged support for Pwc / Pwl / Disc: one-step theorems by induction over the merge, associativity / commutativity as representations, integrals over any sub-interval distribute, refinement of arbitrary add / mul_scalar / copy histories to pointwise arithmetic', 'full (model)'),
+ 'C04': ('order / directionality scans = sign-convention spec (refinement, both scans), directionality values = sum over the other trains / (N-1), ranges, cancellation, swap negation, antisymmetric matrix, synfire identity, pooled multivariate ratio', 'full (model)'),
+ 'C05': ('scalar = average of its profile: bivariate definitional; multivariate ISI / SPIKE / Sync over the whole recording and over any sub-interval (integral linearity over add proved for all three function classes); single-pass compiled routines = profile average / profile sums', 'full (model)'),
+ 'C06': ('all-pairs aggregate: divide-and-conquer = fold on an associative/commutative class, multivariate profile = mean of pair profiles at every time, multivariate PROFILES (as representations) and scalars invariant under permutation of the list (ISI, SPIKE, Sync), matrices = bivariate entries', 'full (model)'),
+ 'C07': ('range / symmetry / identity: ISI complete (every kw, sub-interval, multivariate, matrix); SPIKE profile, distance, multivariate profile and matrix in [0,1] for ALL valid trains (F9 class included), SPIKE symmetry for all inputs, identity for all valid trains; Sync and order ranges, symmetry, directionality self = 0', 'full (model); remaining API-level restatements in wave F'),
+ 'C08': ('affine equivariance (shift + positive scaling incl. MRTS, max_tau) of all 7 kernels for all inputs; mirror theorems for ISI, Sync, order, and SPIKE (definition: all valid trains; scan: outside F9 and its mirror image, where it is proved false)', 'partial: F9 class'),
+ 'C09': ('add = pointwise addition on the merged support for Pwc / Pwl / Disc: one-step theorems by induction over the merge, associativity / commutativity as representations, integrals over any sub-interval distribute, refinement of arbitrary add / mul_scalar / copy histories to pointwise arithmetic, average_profile = pointwise mean', 'full (model)'),
  'C10': ('integral / average / evaluation of the three function classes are the exact Riemann integral / one-sided limits (theorems for whole support, sub-intervals, interval lists, rejects)', 'full (model)'),
- 'C11': ('discrete add by event, open-interval integrals, lists, rejects, averages, plottable smoothing; histories', 'full (model)'),
- 'C12': ('source level: the .pyx sources are transliterated on every run and executed against the .py twin and the Lean model; equality theorems between the Pyx and Py models (profiles, get_tau, single-pass = profile average, multiplicities); the compiled binary itself never runs here', 'partial by construction'),
+ 'C11': ('discrete add by event (commutative / associative as representation), open-interval integrals, lists, rejects, averages, plottable smoothing; histories', 'full (model)'),
+ 'C12': ('source level: the .pyx sources are transliterated on every run and executed against the .py twin and the Lean model; equality theorems between the Pyx and Py models (profiles, get_tau, single-pass = profile average, counters = profile sums for all sorted trains, API-shaped compiled routes); the compiled binary itself never runs here', 'partial by construction'),
  'C13': ('reconcile theorems (common interval, strictly increasing, exact content, idempotent, order/repeats irrelevant); EVERY API function = its Reconcile=False core on the reconciled trains (25 functions), switch irrelevant on valid input; non-mutation monitored at run time', 'full (model) + monitor'),
  'C14': ('call-form / indices / pair theorems over the API model for every measure and keyword combination', "full (model); 'auto'+indices = known finding F8"),
  'C15': ('MRTS antitone at kernel AND whole-profile level (ISI, SPIKE, Sync), small-MRTS and MRTS=0 no-ops, breakpoints independent of MRTS, isi_lengths = ISI-list definition outside the class of known finding F7 (full statement proved false), auto threshold = rms of pooled list and positive', 'partial: F7 class excluded'),
- 'C16': ('window <= max_tau (after fix F4), coincident implies closer than max_tau, monotone in max_tau, None = 0 = unbounded', 'full'),
+ 'C16': ('window <= max_tau (after fix F4), coincident implies closer than max_tau (kernel and every public function: profiles, directionality values, filter), monotone in max_tau, None = 0 = unbounded', 'full'),
  'C17': ('filter keeps exactly the spikes whose coincidence count exceeds threshold*(N-1): keep_iff, partition, antitone in threshold; count = number of coincident trains; fraction = value of the multivariate SPIKE-Sync profile at the spike time', 'full (model); float rounding = known finding F11'),
- 'C18': ('positive denominators (ISI, SPIKE), shapes and well-formedness of all profile kinds incl. SPIKE pair and multivariate profiles, no zero division in sync; exceptions / NaN monitored on the implementation over the degenerate-input catalogue', 'partial: API totality theorems pending (wave D4)'),
- 'C19': ('text round trip: load(save) = trains rounded to the printed precision, line structure, comments, empty lines, sorting, printed-value accuracy bound; IEEE decimal conversion assumed', 'partial'),
+ 'C18': ('every scalar / matrix function is defined (exact acceptance sets of intervals), all four profile kinds well-formed on [t_start,t_end] (bi- and multivariate, indices), shapes of matrices / per-spike results / filter output, SPIKE values bounded for all valid trains, positive denominators; exceptions / NaN of the real code monitored over the degenerate-input catalogue', 'full (model) + monitor'),
+ 'C19': ('text round trip: load(save) = trains rounded to the printed precision (sorted trains: exactly the printed values), line structure, comments, empty lines, sorting; printed value: odd, monotone, idempotent, exact on short decimals, relative accuracy 10^-p/2, resolved spikes stay distinct; second round trip identical; IEEE decimal conversion assumed', 'partial: IEEE parsing assumed'),
  'C20': ('merge = sorted multiset union, PSTH bins partition the spikes and conserve the count, Poisson generator output sorted and inside the interval', 'full (model)'),
 }
 checks = []
